@@ -481,6 +481,17 @@ func (l *lockset) step(x *core.Exec, in ssa.Instruction, a core.AState) ([]core.
 				} else {
 					l.ok("LK4|" + key)
 				}
+				l.access(x, in, f, base, s, true)
+				ns := s
+				ns.m = 'S'
+				return []core.StepOut{{A: ns.String()}}, true
+			}
+			// clearing the flag: only the activation that set it may clear it
+			key := "merge-flag-owner:" + entry
+			if s.m != 'S' {
+				x.Report("LK4", key, "merge-in-progress flag cleared on a path where this call did not set it (e.g. a refused Merge): the running merge loses its exclusion and a third Merge runs concurrently with it", in)
+			} else {
+				l.ok("LK4|" + key)
 			}
 		}
 		l.access(x, in, f, base, s, true)
